@@ -74,7 +74,8 @@ PLANS["C09"] = {
         "thorough": [("", "release", 2800000), ("", "dev", 560000), ("pyvec", "release", 1000000), ("pyvec", "dev", 1000000)],
     },
     "rule": "a case is one of the 28 words with 48 operand tuples drawn from boundary integers (0, +-1, +-2, 2^k, 2^k+-1, i64/i128 "
-            "min/max, random), reals (zeros, subnormals, +-1, ties, max, infinities, NaN for non-comparisons, random bit patterns), "
+            "min/max, random), reals (zeros, subnormals, +-1, ties, max, infinities, NaN for non-comparisons, +-2^k for k at the edges "
+            "of the integer types and the doubles next to them, random bit patterns), one tuple in eight with tagged numeric operands, "
             "mixed int/real and non-numeric operands; operands are pushed as cells (every 8th all-integer tuple goes through "
             "literals) above a sentinel and the word is run through eval. The shard pyvec replays 40000 operand tuples per run whose exact "
             "result (representable / wrapped / division by zero / flag / double) was computed by Python's unbounded integers and "
@@ -83,7 +84,7 @@ PLANS["C09"] = {
                     "division error; min/max with a NaN or with equal operands may return either operand; round is ties-away-from-zero",
                     "comparisons are not given NaN operands (left unspecified by the statement)"],
     "require": [need_set("words", 28), need("outcome:wrapped", 100), need("outcome:division-error", 50), need("outcome:type-error", 1000),
-                need("outcome:exact", 10000), need("outcome:real", 5000),
+                need("outcome:exact", 10000), need("outcome:real", 5000), need("tuples_with_tagged_operand", 100000),
                 need("pyvec:vectors", 70000), need_set("pyvec_words", 27), need("pyvec:kind:wrap", 2000), need("pyvec:kind:div0", 500)],
 }
 
@@ -214,7 +215,11 @@ PLANS["C14"] = {
             "recursion, loops, foreach, meta blocks, locals) through eval or compile+run: the smallest sufficient limit is found on an "
             "empty stack and must move by exactly d when d items are already there; (heap) var / let / defvar under every heap limit "
             "around cells-in-use and need, on heaps with 0..3 extra cells, incl. limits below current usage; (session) limits changed "
-            "between evaluations with all three invariants checked after every step. distinct = distinct (kind, program)",
+            "between evaluations with all three invariants checked after every step; (budget) one instruction limit N, then 3..10 sources "
+            "(top-level loops, meta-block loops, immediate words, non-terminating blocks, sources rejected after their build-time code ran, "
+            "resubmissions) whose every loop turn prints a tick costing at least two instructions: the ticks printed since the limit was "
+            "set never exceed N/2. Reverse-step recording is switched on in half of the cases of every kind; a defvar refused by the heap "
+            "limit must leave its name unknown also after the limit is raised and another variable allocated. distinct = distinct (kind, program)",
     "assumptions": ["a stack limit only refuses pushes: items that were on the stack when a lower limit is set stay",
                     "recovery after a heap-limit error raised at build time is probed through the host API (defvar); how later "
                     "sources behave after a refused build is C10's subject",
@@ -225,7 +230,9 @@ PLANS["C14"] = {
                 need("shift:boundary_ok_confirmed", 20000), need("shift:boundary_fail_confirmed", 20000),
                 need("heap:boundary_fail_confirmed", 50000), need("heap:boundary_ok_confirmed", 10000), need("heap:api_sequences", 50000),
                 need("heap:recoveries", 50000), need("session:steps_checked", 500000), need_set("growth_paths", 13),
-                need_set("heap_growth_paths", 7), need_set("stack_limit_fired_in", 12), need_set("insn_limit_fired_at", 12)],
+                need_set("heap_growth_paths", 7), need_set("stack_limit_fired_in", 12), need_set("insn_limit_fired_at", 12),
+                need("budget:sources", 50000), need("budget:sessions_with_rejected_source", 4000), need("heap:refused_definitions_checked", 50000),
+                need("stack:cases_with_recording", 4000), need("budget:ticks", 50000)],
 }
 
 PLANS["C12"] = {
@@ -263,13 +270,15 @@ PLANS["C13"] = {
             "interpreter; outcome, error payload, result stack, variables and output must agree modulo tags, and every tagged value in "
             "the result must be one of the tagged inputs (or carry exactly the tags the word attaches in the untagged run). 1 of 8 "
             "cases: a sequence of 3..12 tag words (insert-tag remove-tag get-tag with-tags tags) against a (value, attached map) "
-            "model; the value must stay equal. distinct = distinct (word, argument classes, tag positions, outcome)",
+            "model; the value must stay equal. One pair in six passes the same cell as both top arguments (shared storage, as dup leaves "
+            "it); values include NaN; str>number (which takes its base from the formatting tag) is paired with tag maps that lack that "
+            "tag. distinct = distinct (word, argument classes, tag positions, outcome)",
     "assumptions": ["tag maps use string keys only (maps with keys of different types are C12's known finding)",
                     "nil and { } both mean 'no tags'",
                     "allocation-size arguments of int! / uint! are kept <= 512 bits"],
     "require": [need_set("words_covered", 166), need_set("words_both_succeeded", 150), need("pairs_both_succeeded", 100000),
                 need("pairs_both_failed", 100000), need("tagop:insert-tag", 20000), need("tagop:with-tags", 10000),
-                need_set("tag_positions", 7), need_set("arg_classes", 20), need("keyed_map_cases", 30000)],
+                need_set("tag_positions", 7), need_set("arg_classes", 20), need("keyed_map_cases", 30000), need("aliased_argument_pairs", 15000)],
 }
 
 PLANS["C10"] = {
@@ -310,14 +319,19 @@ PLANS["C11"] = {
             "compile+run; words defined inside must not be callable afterwards. 1 of 8: one of 17 blocks that try to read or change "
             "the surrounding stack or a variable, in 3 wrappers: must be rejected and leave stack and variables unchanged. 1 of 8: "
             "hook invariants - compile() of a whole G1/G2 program leaves data stack, existing variables and output untouched; compiling "
-            "a single block adds exactly one code cell per result and only its constants to the dictionary. distinct = distinct "
+            "a single block adds exactly one code cell per result and only its constants to the dictionary. Expressions include results "
+            "carrying tags (formatting tag, user tags; written out as value + with-tags in P'), constants redefined in the same block, "
+            "after a word definition, and in a nested block. Half of the sealing cases are twin-stack probes: the same random block "
+            "(stack words, collect, depth, literals, builders) runs with 1..8 values below it and with none: outcome class and printed "
+            "output must be equal and the stack must be the values below plus the other run's stack. distinct = distinct "
             "(position, expression, surroundings)",
     "assumptions": ["expressions avoid words that read variables (byte order, input cursor): meta mode refuses those by design",
                     "a block nested directly inside another block shares its parent's stack, so its results keep their order (pinned "
                     "by state::tests::test_meta_meta); everywhere else results are inlined last result first"],
     "require": [need("pairs_equal", 150000), need("failing_blocks_rejected", 300), need("purge_checks", 20000), need("sealing_probes_rejected", 20000),
                 need("compile_invariants_checked", 10000), need("block_hook_invariants_checked", 10000), need_set("positions", 9),
-                need_set("expr_classes", 11), need_set("sealing_kinds", 17), need_set("result_counts", 4)],
+                need_set("expr_classes", 17), need_set("sealing_kinds", 17), need_set("result_counts", 4),
+                need("twin_stack_probes:accepted_alike", 1000), need("twin_stack_probes:rejected_alike", 5000)],
 }
 
 PLANS["C16"] = {
@@ -356,10 +370,11 @@ PLANS["C17"] = {
     },
     "rule": "a case plants one failing token (10 build-time kinds: unknown words incl. multi-byte names, bad literals, unbalanced "
             "closers, store to an unknown variable; 10 run-time kinds: division, type, out-of-bounds, assert, assert-eq, error, rem, "
-            "loop index outside a loop) in one of 14 scenarios (top level, loop, if, word called from the same source, from a later "
+            "loop index outside a loop) in one of 16 scenarios (top level, loop, if, word called from the same source, from a later "
             "source, through a chain of 2..5 calls, meta block, word called inside a meta block, included file, first token after an "
             "include, text injected with ~) and the token after it, the same text submitted 2..4 times, a second failing source after a "
-            "first, inside a half-built definition), preceded by 0..3 earlier sources (one in four rejected) and by filler with LF / "
+            "first, inside a half-built definition, in the code of a file's first load after the file was included a second time (unchanged or edited in between), "
+            "in a program resumed with run() after the host repaired the stack following an underflow), preceded by 0..3 earlier sources (one in four rejected) and by filler with LF / "
             "CRLF / tabs / blank lines / multi-byte text / line and multi-line comments. last_err_location() must name the source "
             "(by the monitor's own count of interned sources, or the include path), the token's byte offset and text, line and column "
             "in characters, the quoted line; pretty_error() must show source:line:col and the line; debug map and code have equal "
@@ -370,7 +385,7 @@ PLANS["C17"] = {
                 need("with_multibyte_on_the_same_line_before_token", 20000), need("with_tab_before_token", 50000)] +
                [need("scenario:%s" % s, 10000) for s in ["top", "loop", "if", "called-word-same-source", "called-word-earlier-source", "deep-call-chain",
                                                        "meta-block", "word-in-meta", "included-file", "after-include", "injected-text",
-                                                       "identical-sources", "second-error", "definition-body-build-error"]],
+                                                       "identical-sources", "second-error", "definition-body-build-error", "file-included-twice", "resumed-run"]],
 }
 
 PLANS["C06"] = {
@@ -381,7 +396,8 @@ PLANS["C06"] = {
     "rule": "a case is a sequence of 6..75 parsing words on one interpreter: open-bitstr of a 0..199-bit value cut out of a longer "
             "random buffer at a random bit position (nested up to depth 12), close-bitstr, bits, bytes, uN/iN[le|be] for N in 8 16 32 "
             "64, int, uint, fN[le|be], float, magic (the next bits, a corrupted copy, or a pattern longer than what is left), seek "
-            "(start, end, end+1, start-1, inside, hostile), find (present and absent byte patterns, unaligned patterns), remain, "
+            "(start, end, end+1, start-1, inside, hostile), find (present and absent byte patterns, unaligned patterns), magic and find patterns either fresh or cut out "
+            "of a longer buffer at a random bit position, remain, "
             "big/little, nulbytestr, cstr, and wrong-type arguments; sizes are drawn from {0, remain, remain+-1, 2^32+-1, 2^61, "
             "2^63-1, 2^63, 2^64-1, 2^64, 2^64+1, 2^64+8, usize::MAX/8+1, i128 max/min, -1, random}. After every word the real "
             "offset, input, remain and data stack are compared with a cursor model (stack of inputs with the absolute position of "
@@ -394,7 +410,8 @@ PLANS["C06"] = {
                     "close-bitstr with nothing left to close may fail; it then changes nothing"],
     "require": [need("cursor_checks", 2000000), need("failures_confirmed", 500000), need("nothing_moved_checks", 500000), need("closes", 50000),
                 need_set("failure_kinds", 40), need("word:magic", 50000), need("word:find", 50000), need("word:seek", 50000),
-                need("word:cstr", 20000), need("word:nulbytestr", 20000)],
+                need("word:cstr", 20000), need("word:nulbytestr", 20000),
+                need("magic:pattern-is-slice", 40000), need("find:pattern-is-slice", 40000)],
 }
 
 PLANS["C07"] = {
@@ -409,13 +426,15 @@ PLANS["C07"] = {
             "switches between fields so that fields start at every bit alignment. The record is packed with one (randomly nested) "
             "[ ... ] >bitstr, compared bit for bit with the harness's own layout, parsed back with the matching read words in the same "
             "byte order (values must equal the originals, remain must be 0), then emitted again split at random positions over several "
-            "emit calls (single bit-strings directly, groups through >bitstr) with interception on: output must equal the layout and "
+            "emit calls (single bit-strings directly, groups through >bitstr; in one source text or one eval per call, with "
+            "intercept_output(true) called again in between) with interception on: output must equal the layout and "
             "output-length its length. distinct = distinct (field kinds, alignments, layout)",
     "assumptions": ["little-endian for widths that are not a byte multiple is defined on the value's 8-bit groups, as in C05",
                     "unsigned fields are at most 127 bits wide (the i128 cell cannot hold a larger unsigned value); f32 fields hold "
                     "f32-representable values; NaN is not packed through the language (payload rules of the f64->f32 cast are not the subject)"],
     "require": [need("records_parsed_back", 100000), need("emit_sequences", 100000), need("emit_calls", 300000), need_set("field_kinds", 120),
-                need("field:int-odd", 300000), need("field:float32", 50000), need("field:float64", 50000), need("field:string", 100000), need("raw_fields_that_are_views", 50000)],
+                need("field:int-odd", 300000), need("field:float32", 50000), need("field:float64", 50000), need("field:string", 100000), need("raw_fields_that_are_views", 50000),
+                need("emit:interception_switched_on_again", 50000), need("emit_sequences:one_eval_per_call", 30000)],
 }
 
 PLANS["C08"] = {
@@ -433,7 +452,9 @@ PLANS["C08"] = {
             "compile+run or compile+step, with recording on in a third of the cases followed by reverse steps; the other half: token "
             "soup (dictionary words, boundary and malformed literals, arbitrary UTF-8, control-structure fragments, let patterns, "
             "includes of scratch files, parsing words with hostile sizes, known-dangerous fragments) on a fresh interpreter or on a "
-            "long-lived one that accumulates state, with limits sometimes lowered. After every call Display/Debug of the error, "
+            "long-lived one that accumulates state, with limits sometimes lowered; one soup in three is made of defining and compiling "
+            "words over five names, nested as sources nest them (definitions inside meta blocks, the name being defined reused by "
+            "const/var/local/late, closers without openers). After every call Display/Debug of the error, "
             "pretty_error(), last_err_location() and format_cell / format_cell_safe of the top six stack values are called too. "
             "Every call runs under catch_unwind; the parent watches exit status and signals. Instruction limit 3000, stack limit 256, "
             "address space 3 GiB; allocation-size arguments (random-bits, int!, uint!, d2-resize) <= 65536; file and exec words only "
@@ -444,5 +465,5 @@ PLANS["C08"] = {
     "require": [need_set("words_reached", 248), need_set("xerr_variants", 22), need("call:eval", 60000), need("call:compile", 60000),
                 need("call:run", 15000), need("call:next", 15000), need("call:rnext", 60000), need("call:pretty_error", 200000),
                 need("call:format_cell", 200000), need("soups:long-lived", 30000), need_set("arity1_class_tuples", 38),
-                need_set("arity2_class_tuples", 1000), need_set("arity3_class_tuples", 3000), need("memcheck_cases_without_report", 20000)],
+                need_set("arity2_class_tuples", 1000), need_set("arity3_class_tuples", 3000), need("memcheck_cases_without_report", 20000), need("soups:defining-words", 60000)],
 }
